@@ -1,3 +1,4 @@
+import AmVerif.Gen.Tables
 import AmVerif.Model.Source
 /-!
 # C11 — directory assets list exactly the matching ids of a directory / subtree
@@ -360,5 +361,10 @@ theorem C11_iter_cached {α} (ids : List Id) (getCached : Id → Option α) (key
     cases h : getCached i with
     | none => simpa using ih
     | some a => simp [hk i a h, ih]
+
+/-- `Directory<Arc<T>>` / `RecursiveDirectory<Arc<T>>` list exactly what the `T` versions list: `impl DirLoadable for
+Arc<T>` forwards `select_ids` and `sub_directories` to `T` (the trait's default `sub_directories` would walk the source's
+directories instead of `T`'s). -/
+theorem C11_arc_lists_like_inner : AmVerif.Gen.arcDirLoadableForwards = true := by decide
 
 end AmVerif.Props.C11
